@@ -14,7 +14,7 @@ REQUIRED = ['winning_votes_is_textbook', 'margins_is_textbook', 'pairwise_opposi
             'cw_rankedpairs_partial', 'cw_kemeny_partial', 'kemeny_is_argmax', 'kemeny_refusal',
             'copeland_in_smith', 'schulze_in_smith', 'kemeny_in_smith', 'rankedpairs_in_smith', 'tideman_in_smith',
             'lockPairs_acyclic', 'isPath_iff', 'benham_tie_refused_not_outsider', 'eliminateOne_no_mixed_tie', 'no_contest_refused',
-            'benham_in_smith', 'subset_preserves_pairwise', 'wf_of_profileOK', 'copeland_defining', 'copeland2o_defining', 'copeland2o_tied_members', 'copeland2o_scores', 'minimax_defining', 'worstDefeat_is_max', 'widestPaths_correct', 'winWeight_is_win_count',
+            'benham_in_smith', 'subset_preserves_pairwise', 'wf_of_profileOK', 'copeland_defining', 'copeland2o_defining', 'copeland2o_tied_members', 'copeland2o_scores', 'minimax_defining', 'worstDefeat_is_max', 'widestPaths_correct', 'schulze_defining', 'winWeight_is_win_count',
             'no_candidate_dropped_copeland', 'no_candidate_dropped_minimax', 'no_candidate_dropped_schulze',
             'cw_rankedpairs_witness', 'cw_kemeny_witness', 'rankedpairs_dropped_witness', 'minimax_never_loser_fixed',
             'benham_elimination_tie_refused', 'tideman_elimination_tie_refused', 'tideman_last_tie_refused',
